@@ -235,6 +235,11 @@ fn main() {
             }
             11 => {
                 LocalSpan::add_event(Event::new("e").with_property(cl).with_properties(cls));
+                #[allow(deprecated)]
+                Event::add_to_local_parent("e-old", || {
+                    CLOSURES.fetch_add(1, Ordering::SeqCst);
+                    [(std::borrow::Cow::from("k"), std::borrow::Cow::from("v"))]
+                });
                 "local_add_event"
             }
             12 if !spans.is_empty() => {
@@ -246,6 +251,11 @@ fn main() {
             13 if !spans.is_empty() => {
                 let p = rng.below(spans.len());
                 spans[p].add_event(Event::new("e").with_property(cl));
+                #[allow(deprecated)]
+                Event::add_to_parent("e-old", &spans[p], || {
+                    CLOSURES.fetch_add(1, Ordering::SeqCst);
+                    [(std::borrow::Cow::from("k"), std::borrow::Cow::from("v"))]
+                });
                 "add_event"
             }
             14 if !spans.is_empty() => {
